@@ -20,7 +20,8 @@ import h5py
 from . import kernel
 from .kernel import SimAbort
 
-REPO_SRC = "/repo/src/cooler/"
+REPO_ROOT = os.path.realpath(os.environ.get("COOLSIM_REPO", "/repo"))
+REPO_SRC = REPO_ROOT + "/src/cooler/"
 
 _orig_file_init = h5py.File.__init__
 _orig_file_close = h5py.File.close
@@ -455,7 +456,7 @@ def install():
     import cooler.create._create as cc
     import cooler.parallel
 
-    assert os.path.realpath(cooler.__file__).startswith("/repo/src/"), cooler.__file__
+    assert os.path.realpath(cooler.__file__).startswith(REPO_ROOT + "/src/"), (cooler.__file__, REPO_ROOT)
 
     h5py.File.__init__ = _sim_file_init
     h5py.File.close = _sim_file_close
